@@ -180,6 +180,18 @@ class Descriptors:
                     direct = True
         return anym, direct
 
+    def fuzzy_must_be_absent(self, name):
+        """a file that no component produces is missing for the component itself, or (transitively) for a producer whose
+        working directory it references"""
+        c = self.comps[name]
+        for r in c['refs']:
+            kind, val = file_of_ref(self.world, r)
+            if kind == 'file' and val is None and r['prod'] is None:
+                return True
+            if kind == 'dir' and self.fuzzy_must_be_absent(r['prod']):
+                return True
+        return False
+
     def _exe(self, c):
         e = c['exe']
         if isinstance(e, dict):
@@ -203,6 +215,10 @@ class Descriptors:
         # a directory of a producer: identified by the producer AND by what the directory contains (the generator
         # always changes both together, see ASSUMPTIONS of the check)
         p = self.desc(r['prod'], mode)
+        if mode == 'S' and p is not None and p[0] == 'MISSING':
+            # the producer cannot be identified while one of ITS inputs is missing, so neither can what its directory
+            # stands for: the missing input is (transitively) an input of the consumer -> no hash
+            return ('MISSING',)
         if p is None or p[0] == 'MISSING':
             return None
         if mode == 'S':
@@ -247,8 +263,8 @@ class Descriptors:
             'strong_missing': s is not None and s[0] == 'MISSING',
             'fz_lo': key_of(lo) if lo is not None and lo[0] != 'MISSING' else None,
             'fz_hi': key_of(hi) if hi is not None and hi[0] != 'MISSING' else None,
-            'fz_missing_direct': direct,
-            'own_missing': anym,
+            'fz_missing_direct': direct or self.fuzzy_must_be_absent(name),
+            'own_missing': anym or (s is not None and s[0] == 'MISSING'),
         }
 
 
